@@ -13,7 +13,8 @@ def gen(rng, tier):
     n = 1200 if tier == "quick" else 40000
     out = []
     for _ in range(n):
-        name = rng.choice([b"foo", b"bar"]); sfx = rng.choice([b"conf", b".conf", None, b""])
+        name = rng.choice([b"foo", b"bar", b"foo", b"bar", b""]); sfx = rng.choice([b"conf", b".conf", None, b""])
+        if name == b"" and not sfx: sfx = b"conf"          # "<dir>/" alone is no file name
         confdirs = rng.choice([None, None, [b".conf.d", b".d"]])
         d1, d2 = rng.choice([(b"/usr/etc", b"/etc"), (b"/usr/etc", b"/etc"), (b"/usr/etc", None), (None, b"/etc"),
                              (b"/usr:v2/etc", b"/etc"), (b"/usr/etc", b"/e;tc"), (b"/a=b/etc", b"/etc:")])      # any legal directory name
@@ -24,7 +25,9 @@ def gen(rng, tier):
         npre = len(cmds)
         args = "%s %s %s %s x3d x23" % (enc(d1), enc(d2), enc(name), enc(sfx))
         body = ["readdirs 0 " + args, "dump 0"]
-        if d1 and d2 and not any(c in d1 + d2 for c in b":;"):       # an option string cannot name such directories
+        # (an option string cannot name directories with ':' or ';'; an empty configuration name means "drop-ins only,
+        #  named after the project" to econf_readConfig and nothing of the kind to econf_readDirs: not the same parameters)
+        if d1 and d2 and name and not any(c in d1 + d2 for c in b":;"):
             body += ["newopts 1 " + enc(b"PARSING_DIRS=" + d1 + b":" + d2), "readconfig 1 - - %s %s x3d x23" % (enc(name), enc(sfx)), "dump 1"]
         body += ["cb reject", "readdirs 2 " + args, "dump 2", "history " + args, "cb none", "history " + args]
         out.append(Scenario(cmds + body, [False] * npre + [True] * len(body), tags=("nulldir" if not (d1 and d2) else "two",)))
